@@ -183,6 +183,9 @@ type dvScript struct {
 	Dials     []dvDial
 	Tasks     []dvTask
 	Waits     []bool
+	// Slow is not part of the model's script: every interface lookup of a real dial takes this long (the RTNL lock is
+	// held elsewhere).  A dial is not a scheduling point of the Dialer: however long it takes, the trace is the same.
+	Slow time.Duration
 }
 
 func (s dvScript) clone() dvScript {
@@ -314,12 +317,14 @@ type dvRun struct {
 	ids       map[*DialContext]uint64
 	stepC     chan struct{}
 	variant   int
+	inSlow    int // dials currently inside a slow interface lookup
+	slept     time.Duration
 }
 
 const dvMaxEvents = 6000
 
 func (r *dvRun) log(ev string) {
-	r.res.Events = append(r.res.Events, dvEvent{int64(time.Since(r.start)), ev})
+	r.res.Events = append(r.res.Events, dvEvent{int64(time.Since(r.start) - r.slept), ev})
 	if len(r.res.Events) > dvMaxEvents {
 		r.res.Overflow = true
 	}
@@ -543,6 +548,12 @@ func dvExec(t *testing.T, s dvScript) *dvResult {
 			defer func() { verifLookupInterface, verifCheckInterface, verifDialNDP = oldL, oldC, oldD }()
 			verifLookupInterface = func(name string) (*net.Interface, error) {
 				c := r.cur.Steps.Lookup
+				if s.Slow > 0 {
+					r.inSlow++
+					time.Sleep(s.Slow)
+					r.inSlow--
+					r.slept += s.Slow // the trace is timed on a clock that stands still inside a dial
+				}
 				r.log("(Lookup " + dvOErr(c) + ")")
 				if c != dvOK {
 					return nil, dvMkErr(c, r.variant)
@@ -582,6 +593,10 @@ func dvExec(t *testing.T, s dvScript) *dvResult {
 				res.FinalAutoconf = r.autoconf
 				return
 			default:
+			}
+			if r.inSlow > 0 {
+				time.Sleep(s.Slow) // blocked inside a slow dial, not in a back-off wait
+				continue
 			}
 			// Dial is blocked in a back-off wait of positive length.
 			if !r.cancelled && r.popWait() {
